@@ -1123,6 +1123,13 @@ func CheckSignatureFromKey(publicKey interface{}, algo SignatureAlgorithm, signe
 		if dsaSig.R.Sign() <= 0 || dsaSig.S.Sign() <= 0 {
 			return errors.New("x509: DSA signature contained zero or negative values")
 		}
+		// FIPS 186-4, section 4.6: z is the leftmost min(N, outlen) bits of the
+		// digest; dsa.Verify does not perform that truncation itself.
+		if pub.Q != nil {
+			if n := pub.Q.BitLen() / 8; n > 0 && len(digest) > n {
+				digest = digest[:n]
+			}
+		}
 		if !dsa.Verify(pub, digest, dsaSig.R, dsaSig.S) {
 			return errors.New("x509: DSA verification failure")
 		}
